@@ -122,6 +122,9 @@ type Term struct {
 	SV    *Var
 	Tab   []uint64
 	Multi bool // support is not a single enumerable variable (and not empty)
+	RawVar *Var   // for raw domain constraints: the variable they constrain
+	sup    []*Var // cached support (variables), see SupportList
+	supOK  bool
 	NoEval bool // contains an uninterpreted function or real arithmetic: cannot be evaluated under a model
 
 	defined bool // emitted to the solver as define-fun (per solver generation)
@@ -928,5 +931,47 @@ func Support(t *Term, seen map[int]bool, out map[*Var]bool) {
 	}
 	for _, a := range t.Args {
 		Support(a, seen, out)
+	}
+}
+
+// SupportList returns (and caches) the variables of a term.
+func SupportList(t *Term) []*Var {
+	if t.supOK {
+		return t.sup
+	}
+	if t.RawVar != nil {
+		t.sup = []*Var{t.RawVar}
+	} else {
+		m := map[*Var]bool{}
+		supportAll(t, map[int]bool{}, m)
+		for v := range m {
+			t.sup = append(t.sup, v)
+		}
+	}
+	t.supOK = true
+	return t.sup
+}
+
+func supportAll(t *Term, seen map[int]bool, out map[*Var]bool) {
+	if seen[t.ID] {
+		return
+	}
+	seen[t.ID] = true
+	if t.Op == OpVar {
+		out[t.V] = true
+		return
+	}
+	if t.SV != nil {
+		out[t.SV] = true
+		return
+	}
+	if t.supOK {
+		for _, v := range t.sup {
+			out[v] = true
+		}
+		return
+	}
+	for _, a := range t.Args {
+		supportAll(a, seen, out)
 	}
 }
